@@ -16,6 +16,8 @@ def main():
     api.MODEL.update(doc.get("model") or {})
     api.install_ghost_clock()
     mod = importlib.import_module(doc["sidecar"])
+    for sc in doc.get("sidecars", []):
+        importlib.import_module(sc)
     h = api.HARNESSES[doc["harness"]]
     for s in doc.get("uses", []):
         api.install_summary(s)
